@@ -1,5 +1,5 @@
 (* Proofs_C12.v — temperature profiles are bounded by their control values. *)
-From Coq Require Import ZArith Reals List Bool Arith Lia Lra.
+From Coq Require Import ZArith Reals List Bool Arith Lia Lra Psatz.
 From TV Require Import Num ListNum ListAux ListNumR Proofs_C03 Proofs_C13 MovAvg Model_C12.
 Import ListNotations.
 Local Open Scope R_scope.
@@ -139,3 +139,74 @@ Proof. intros H. unfold guillot_valid. rnum.
   - rewrite (Heq _ H). rewrite !andb_false_r. reflexivity.
   - assert (E : Rltb Tirr 0 = true) by (apply Rltb_true; exact H). rewrite E. cbn [negb]. rewrite !andb_false_r. reflexivity.
   - assert (E : Rltb Tint 0 = true) by (apply Rltb_true; exact H). rewrite E. cbn [negb]. rewrite !andb_false_r. reflexivity. Qed.
+
+(* ---------------- Guillot: T^4 is positive for physical parameters ----------------
+   E2 (the exponential integral of order two) enters as a supplied value; what is assumed about it is the classical
+   bound 0 <= E2(x) <= exp(-x)/(1+x), which the harness validates on every value it hands over. *)
+Lemma exp_neg_bound (x : R) : 0 <= x -> exp (- x) * (1 + x) <= 1.
+Proof. intros Hx. pose proof (exp_pos (- x)) as Hp.
+  pose proof (exp_ineq1_le x) as H1.
+  assert (H2 : exp (- x) * exp x = 1) by (rewrite <- exp_plus; replace (- x + x) with 0 by ring; apply exp_0).
+  nra. Qed.
+
+(* eta(gamma, tau) >= 2/3 whenever the supplied E2 value obeys 0 < E2(x) <= exp(-x)/(1+x) *)
+Lemma eta_ge (g t e2 : R) : 0 < g -> 0 <= t -> 0 <= e2 -> e2 * (1 + g * t) <= exp (- (g * t)) ->
+  2 / 3 <= @eta R RTNum g t e2.
+Proof. intros Hg Ht He Hub. unfold eta. rnum.
+  set (x := g * t) in *. assert (Hx : 0 <= x) by (unfold x; nra).
+  replace (- (1) * g * t) with (- x) by (unfold x; ring).
+  set (E := exp (- x)) in *.
+  assert (HE : 0 < E) by apply exp_pos.
+  pose proof (exp_neg_bound x Hx) as HE1. fold E in HE1.
+  assert (HEle1 : E <= 1) by nra.
+  replace (g * t / 2) with (x / 2) by (unfold x; field).
+  (* second term: (2/(3g)) * (1 + (x/2 - 1) E) >= 0 *)
+  assert (Hs : 0 <= 1 + (x / 2 - 1) * E) by nra.
+  assert (Hig : 0 < / g) by (apply Rinv_0_lt_compat; exact Hg).
+  destruct (Rle_dec (t * t / 2) 1) as [Hsmall|Hbig].
+  - (* third term non-negative *)
+    assert (0 <= 2 / (3 * g) * (1 + (x / 2 - 1) * E)).
+    { apply Rmult_le_pos; [|exact Hs]. unfold Rdiv. rewrite Rinv_mult. nra. }
+    assert (0 <= 2 * g / 3 * (1 - t * t / 2) * e2) by (apply Rmult_le_pos; [nra|lra]).
+    lra.
+  - apply Rnot_le_lt in Hbig.
+    (* e2 <= E / (1 + x) ; multiply everything by 3 g (1 + x) > 0 *)
+    assert (Hx1 : 0 < 1 + x) by lra.
+    assert (Hkey : 0 <= 2 / (3 * g) * (1 + (x / 2 - 1) * E) + 2 * g / 3 * (1 - t * t / 2) * e2).
+    { apply Rmult_le_reg_l with (3 * g * (1 + x)); [nra|]. rewrite Rmult_0_r.
+      replace (3 * g * (1 + x) * (2 / (3 * g) * (1 + (x / 2 - 1) * E) + 2 * g / 3 * (1 - t * t / 2) * e2))
+        with ((1 + x) * (2 + (x - 2) * E) + (2 * g * g - x * x) * (e2 * (1 + x))) by (unfold x; field; lra).
+      (* 2 g^2 - x^2 = 2 g^2 (1 - t^2/2) < 0, and e2 (1+x) <= E *)
+      assert (Hneg : 2 * g * g - x * x <= 0) by (unfold x; nra).
+      assert (Hm : (2 * g * g - x * x) * E <= (2 * g * g - x * x) * (e2 * (1 + x))) by nra.
+      assert (Hg2 : 0 <= 2 * g * g * E) by nra.
+      (* (1+x)(2 + (x-2)E) - x^2 E = 2(1+x) - (x+2) E >= 0 *)
+      assert (Hfin : 0 <= (1 + x) * (2 + (x - 2) * E) - x * x * E) by nra.
+      nra. }
+    lra. Qed.
+
+Theorem guillot_T4_positive (kir kv1 kv2 alpha Tirr Tint grav P e21 e22 : R) :
+  0 < kir -> 0 < kv1 -> 0 < kv2 -> 0 < grav -> 0 <= P -> 0 <= alpha <= 1 -> 0 <= Tirr -> 0 <= Tint -> 0 < Tirr + Tint ->
+  0 <= e21 -> e21 * (1 + kv1 / kir * (kir * P / grav)) <= exp (- (kv1 / kir * (kir * P / grav))) ->
+  0 <= e22 -> e22 * (1 + kv2 / kir * (kir * P / grav)) <= exp (- (kv2 / kir * (kir * P / grav))) ->
+  0 < @guillot_T4 R RTNum kir kv1 kv2 alpha Tirr Tint grav P e21 e22.
+Proof. intros Hk H1 H2 Hgr HP Ha Hir Hint Hsum He1 Hb1 He2 Hb2. unfold guillot_T4. rnum.
+  set (tau := kir * P / grav) in *.
+  assert (Htau : 0 <= tau). { unfold tau. apply Rmult_le_pos; [nra|left; apply Rinv_0_lt_compat; exact Hgr]. }
+  assert (Hg1 : 0 < kv1 / kir) by (apply Rdiv_lt_0_compat; assumption).
+  assert (Hg2 : 0 < kv2 / kir) by (apply Rdiv_lt_0_compat; assumption).
+  pose proof (eta_ge (kv1 / kir) tau e21 Hg1 Htau He1 Hb1) as E1.
+  pose proof (eta_ge (kv2 / kir) tau e22 Hg2 Htau He2 Hb2) as E2.
+  set (h1 := @eta R RTNum (kv1 / kir) tau e21) in *. set (h2 := @eta R RTNum (kv2 / kir) tau e22) in *.
+  set (i4 := Tint * Tint * Tint * Tint). set (r4 := Tirr * Tirr * Tirr * Tirr).
+  assert (Hi4 : 0 <= i4) by (unfold i4; nra).
+  assert (Hr4 : 0 <= r4) by (unfold r4; nra).
+  assert (Hpos : 0 < i4 + r4).
+  { unfold i4, r4. destruct (Req_dec Tint 0) as [->|Hn].
+    - assert (0 < Tirr) by lra. assert (0 < Tirr * Tirr) by nra. nra.
+    - assert (0 < Tint) by lra. assert (0 < Tint * Tint) by nra. nra. }
+  assert (T1 : 0 <= 3 * i4 / 4 * (2 / 3 + tau)) by nra.
+  assert (T2 : 3 * r4 / 4 * (1 - alpha) * (2 / 3) <= 3 * r4 / 4 * (1 - alpha) * h1) by (apply Rmult_le_compat_l; [nra|exact E1]).
+  assert (T3 : 3 * r4 / 4 * alpha * (2 / 3) <= 3 * r4 / 4 * alpha * h2) by (apply Rmult_le_compat_l; [nra|exact E2]).
+  assert (T1' : 3 * i4 / 4 * (2 / 3) <= 3 * i4 / 4 * (2 / 3 + tau)) by nra.
+  nra. Qed.
